@@ -90,6 +90,9 @@ class C39(E1Prop):
                 res.tags.append('preemption')
             if any(x['instance_name'] for x in w.db.tables['attempts']):
                 res.tags.append('scheduled-by-real-scheduler')
+            if any(j['cores_mcpu'] == i['cores_mcpu'] for j in w.db.tables['jobs'] for i in w.db.tables['instances']
+                   if j['inst_coll'] == 'standard' and i['inst_coll'] == 'standard'):
+                res.tags.append('job-asks-for-exactly-a-whole-pool-instance')
             if any('1242' in e for e in act.errors):
                 res.tags.append('loop-error-1242')
             for e in sorted(set(x.split(':')[0] for x in act.errors)):
